@@ -372,7 +372,8 @@ class C12(runner.Check):
 		else:
 			case["n_jobs"] = [1] + s.sample([2, 3, 5, 8, 16], 2)
 			case["chunks"] = [0, s.choice([1, 2])]
-			case["fasta"] = {"width": r.choice([7, 60, 1000]), "lower": r.chance(0.4)}
+			case["fasta"] = {"width": r.choice([7, 60, 1000]), "lower": r.chance(0.4),
+				"desc": r.chance(0.3)}
 			case["xkind"] = r.wchoice(["float32", "int8", "float64", "numpy", "strided"],
 				[4, 2, 1, 1, 1])
 		return case
@@ -614,7 +615,8 @@ class C12(runner.Check):
 			else ["chr%d" % i for i in range(len(world["seqs"]))]
 		seqs_file = [s.lower() if (case["fasta"]["lower"] and i % 2 == 0) else s
 			for i, s in enumerate(world["seqs"])]
-		genome.write_fasta(fa, list(zip(names, seqs_file)), width=case["fasta"]["width"])
+		genome.write_fasta(fa, list(zip(names, seqs_file)), width=case["fasta"]["width"],
+			descriptions=bool(case["fasta"].get("desc")))
 		genome.write_meme(mm, [(m["name"], m["pwm"]) for m in world["motifs"]])
 		nthreads0 = numba.get_num_threads()
 		first = None
